@@ -112,6 +112,7 @@ func c15Sandbox(mask int) core.Tree {
 }
 
 func C15(r *core.Run) {
+	r.CLIOnly = true
 	dir := ""
 	if !r.IsWorker() {
 		dir = core.Scratch("c15")
